@@ -131,6 +131,7 @@ func runSelfTest(deps *Deps, base *Prog, p *Property, kf *KnownFile, dir string,
 		}
 		ns, ok := applyEdits(string(src), v.Edits)
 		if !ok {
+			fmt.Printf("  selftest %-8s %-60s stale (edit does not apply to the current tree)\n", v.Kind, v.Name)
 			o.Outcome = "stale"
 			st.Stale++
 			st.Outcomes = append(st.Outcomes, o)
@@ -168,7 +169,7 @@ func runSelfTest(deps *Deps, base *Prog, p *Property, kf *KnownFile, dir string,
 			if v.Expect != "" {
 				hit = false
 				for _, r := range newRules {
-					if r == v.Expect || strings.HasPrefix(r, "undecided") {
+					if strings.HasPrefix(r, v.Expect) || strings.HasPrefix(r, "undecided") {
 						hit = true
 					}
 				}
